@@ -12,6 +12,8 @@ CLAIMED = {
              note="Liveness on real executions is observed as quiescence of the cooperative replay (exact) and as 3 s without progress on real sockets; true liveness (Drains) is proved on the model only."),
  "C05": dict(design="4/C05", text="TLC explores every state of HeadDrain.tla (the hand-over protocol of Conn.Execute/MustExecute at critical-section grain, 2-3 submitters x 1-3 jobs, inline and goroutine executors, racing Close; 8 invariants + liveness). The state graph is turned into replay scripts (all maximal paths when few, else an edge tour plus seeded walks) executed on the real nbio.Conn under a cooperative scheduler (locks, go statements and job boundaries are yield points; code after an Unlock is continued lazily or eagerly). A free-running leg records 8 submitters x 20 jobs per connection under three executors and GOMAXPROCS 1/4/16. Every trace is validated by TLC against FifoMon.tla, which alone decides.",
              note="Trusted: TLC, the vrt scheduler / vsync shim (thin wrapper around sync.Mutex), the trace recorder. HTTP/WebSocket handler serialization is checked by the C10/C14 legs."),
+ "C19": dict(design="4/C19", text="TaskPool.tla (atomic counter, bounded channel, workers that drain then exit, dispatcher, Stop) is model-checked by TLC (AtMostOnce, WithinBound, ExactlyOnceAtIdle, CapacityRecovers, CounterSane; with the repairs switched off TLC reproduces the counter leak). The real pool is recorded under GOMAXPROCS 1/4/16 for bounds 2..64: bursts above the bound, full queue, panicking tasks, submissions racing Stop, and a capacity probe (a barrier of K0 mutually waiting tasks, K0 measured on a fresh pool, must complete again after overload + idle); traces are validated by TLC against PoolMon.tla. Timer.Async (the engine's asynchronous queue) is HeadDrain.tla with Variant=async: every path/edge of its state graph is replayed on the real timer.Timer under the cooperative scheduler and validated against FifoMon.tla; a free-running leg queues up to 3000 functions behind a blocked head (list-shrinking branch) and is validated against SeqFifoMon.tla.",
+             note="Channels are not shimmed, so the task pool's interleavings are those the Go scheduler produced; exhaustive interleaving coverage exists for the model and for Timer.Async only. IOTaskPool is covered through C02."),
  "C17": dict(design="4/C17", text="NbConn.tla with MaxWB > 0 (LeftExact, Bounded checked by TLC); fill / overflow / drain / refill programs replayed on the real Conn against the byte-exact model kernel with eager returns, so the monitor knows the true backlog (accepted minus taken by the kernel) at every call: overflow only if backlog+size > bound, acceptance only if the held backlog stays <= bound, overflow closes the connection. A phased real-socket leg (pause peer, drain, pause again; Write/Writev/Sendfile; syscall recorder for kernel-accepted bytes) checks that the full budget is available again after a drain.",
              note="Bytes of queued Sendfile entries are not counted as held backlog (they are not buffered in memory; the code never counted them). Trusted: model kernel, syscall recorder."),
 }
